@@ -109,7 +109,7 @@ impl Profile {
             w_batch: 4,
             w_broadcast: 2,
             w_comb: [4, 1, 6],
-            allow_narrowing: false,
+            allow_narrowing: true,
             pads: false,
             prefer_iter_source: false,
             small_batches: false,
